@@ -26,6 +26,9 @@ def eval_call(E, node, st):
             if rx is None:
                 raise SpecError("regex %r" % pat)
             return E.bind(E.eval(node.args[1], st), lambda s, v: [Out("ok", s, vbool(z3.InRe(v.t, rx)))])
+        if f.id == "now" and E.spec_mode:
+            from .pymodel import clock_value
+            return [Out("ok", st, V(REAL, clock_value(E, st)))]
         if f.id == "is_prefix" and E.spec_mode:
             def kp(s, vs):
                 a, b = vs
@@ -639,6 +642,12 @@ def havoc(E, st, locs, env, old_st):
     s = st.copy()
     for loc in locs:
         node = parse_clause(loc)
+        if isinstance(node, ast.Name) and node.id == "CLOCK":
+            from .pymodel import clock_value, set_clock
+            t = z3.Real(fresh_name("clock"))
+            s.pc = s.pc + (t >= clock_value(E, s),)
+            s.heap = set_clock(E, s, t).heap
+            continue
         if isinstance(node, ast.Attribute):
             if isinstance(node.value, ast.Name) and node.value.id == "ANY":
                 # ANY._field : the whole field array
